@@ -529,6 +529,8 @@ def _rep(a, b):
 
 
 WITNESSES = [
+    ("set_rng keeps an earlier generator", "batchie.models.sparse_combo",
+     _rep("    def set_rng(self, rng: np.random.Generator):\n        self._rng = rng\n", "    def set_rng(self, rng: np.random.Generator):\n        if self._rng is None:\n            self._rng = rng\n"), ["R8"]),
     ("burn-in of 0 refused", "batchie.sampling", _rep("            if n_burnin is None:", "            if not n_burnin:"), ["R6"]),
     ("thinning counted from index", "batchie.sampling", _rep("if ((step_index + 1) % thin) == 0:", "if (step_index % thin) == 0:"), ["R3"]),
     ("every chain seeded identically", "batchie.sampling", _rep("rng = numpy.random.default_rng(seeds[chain_index])", "rng = numpy.random.default_rng(seed)"), ["R4"]),
